@@ -29,13 +29,13 @@ DOMAIN = {
     "nDim": ["two", "three"],
 }
 INVALID = {
-    "kernel": ["unknown"], "resampler": ["unknown"], "metric": ["ess0", "essneg", "vv0", "vvneg", "ess0vv", "essnegvv"],
+    "kernel": ["unknown", "fragment", "empty"], "resampler": ["unknown", "fragment", "empty"], "metric": ["ess0", "essneg", "vv0", "vvneg", "ess0vv", "essnegvv"],
     "evaluation": ["vectorblobs"], "bounds": ["overlap", "outofrange", "negative", "nonint"],
     "nParticles": ["zero", "neg", "float"], "nDim": ["zero", "neg", "float"],
 }
 # values the property's list does not classify (an integral-valued float, a numpy integer): either outcome is conforming -
 # rejected at construction, or accepted and then the run completes; accepted-then-fails-later is not
-UNSPECIFIED = {"nParticles": ["intfloat", "npint"], "nDim": ["intfloat", "npint"]}
+UNSPECIFIED = {"kernel": ["upper"], "resampler": ["upper"], "nParticles": ["intfloat", "npint"], "nDim": ["intfloat", "npint"]}
 DEFAULT = {"kernel": "tpcn", "resampler": "mult", "clustering": "on", "normalize": "on", "clusterEvery": "1", "cap": "none",
            "split": "one", "metric": "ess2", "nSteps": "none", "nMaxSteps": "none", "evaluation": "scalar", "bounds": "none",
            "pool": "none", "saveEvery": "none", "nParticles": "small", "nDim": "two"}
@@ -48,8 +48,8 @@ def concretize(c):
     nd = n_dim if isinstance(n_dim, int) and n_dim > 0 else 2
     conf = dict(
         n_dim=n_dim,
-        sample={"tpcn": "tpcn", "rwm": "rwm", "unknown": "hmc"}[c["kernel"]],
-        resample={"mult": "mult", "syst": "syst", "unknown": "strat"}[c["resampler"]],
+        sample={"tpcn": "tpcn", "rwm": "rwm", "unknown": "hmc", "fragment": "rw", "empty": "", "upper": "TPCN"}[c["kernel"]],
+        resample={"mult": "mult", "syst": "syst", "unknown": "strat", "fragment": "sys", "empty": "", "upper": "SYST"}[c["resampler"]],
         clustering=c["clustering"] == "on", normalize=c["normalize"] == "on", cluster_every=int(c["clusterEvery"]),
         n_max_clusters=None if c["cap"] == "none" else int(c["cap"]),
         split_threshold={"half": 0.5, "one": 1.0, "two": 2.0}[c["split"]],
